@@ -267,6 +267,10 @@ type vfTScenario struct {
 	NeedCodec bool
 	Steps     []vfTStep
 	LoopTicks bool // log of tgt is compared as a set of distinct lines (tick counts are timing dependent)
+	// Poison: before the steps both systems try to send messages whose custom writer fails inside the Writer (to an actor
+	// on the other system, in the local and in the remote variant alike; they are never delivered). Whatever such a
+	// failure leaves behind must not change what the operations under test do afterwards.
+	Poison bool
 	Equal     [][2]string // pairs of roles on different systems that do the same thing: their logs must be equal within one run
 }
 
@@ -308,6 +312,15 @@ func vfTScenarios() []vfTScenario {
 			vfTScenario{Name: p + "pipe user-codec reply", NeedCodec: true, Steps: []vfTStep{pipe(who, "pipe", "tgt", tm("ask-reply-user", 4), "fwA", "fwB")}},
 		)
 	}
+	// the same operations after encodes that failed inside the Writer
+	ps := "after messages whose writer failed: "
+	sc = append(sc,
+		vfTScenario{Name: ps + "ping, ask/reply, tell-back", Poison: true, Steps: []vfTStep{step("drv", "ping", "tgt", nil), step("drv", "ask", "tgt", tm("ask-reply", 1)), step("drv", "tell", "tgt", tm("tellback", 7))}},
+		vfTScenario{Name: ps + "kill (system message)", Poison: true, Steps: []vfTStep{kill("drv", "tgt", false, "because"), step("drv", "ping", "tgt", nil)}},
+		vfTScenario{Name: ps + "watch, then kill by a third actor", Poison: true, Steps: []vfTStep{step("drv", "watch", "tgt", nil), kill("drv2", "tgt", true, "x")}},
+		vfTScenario{Name: ps + "pipe success and error reply to local+remote forwarders", Poison: true, Steps: []vfTStep{pipe("drv", "pipe", "tgt", tm("ask-reply", 4), "fwA", "fwB"), pipe("drv", "pipe", "tgt", tm("ask-reply-err", 5), "fwA", "fwB")}},
+		vfTScenario{Name: ps + "system-level ask and kill", Poison: true, Steps: []vfTStep{step("sys:drv", "ask", "tgt", tm("ask-reply", 1)), kill("sys:drv", "tgt", false, "r")}},
+	)
 	// operations only an ActorContext has
 	sc = append(sc,
 		vfTScenario{Name: "watch, then the target is killed by a third actor", Steps: []vfTStep{step("drv", "watch", "tgt", nil), kill("drv2", "tgt", false, "x")}},
@@ -408,6 +421,23 @@ func (p *vfTPair) run(sc vfTScenario, local bool) (map[string][]string, string) 
 				return
 			}
 		}
+	}
+	if sc.Poison {
+		toB := refs["fwB"]
+		toA, _ := p.b.sys.CreateRef(p.a.adv, refs["fwA"].GetPath())
+		var pw sync.WaitGroup
+		for g := 0; g < 8; g++ {
+			pw.Add(1)
+			go func(g int) {
+				defer pw.Done()
+				for i := 0; i < 6; i++ {
+					p.a.sys.Tell(toB, &vfPoisonMsg{N: g*10 + i})
+					p.b.sys.Tell(toA, &vfPoisonMsg{N: g*10 + i})
+				}
+			}(g)
+		}
+		pw.Wait()
+		time.Sleep(150 * time.Millisecond)
 	}
 	for _, st := range sc.Steps {
 		cmd := st.Cmd
